@@ -204,9 +204,10 @@ Lemma step_frame_up s o s' outs :
 Proof.
   intros Ho HI HP HP' H. pose proof H as H0. pose proof (pr_sorted _ HP') as Hs'.
   destruct o; try destruct Ho; cbn [step] in H0.
-  - eapply (frame_up_of_PR quietA s s [] s' outs); [exact Hs' | eapply handle_submit_array_PR; [|exact H0]; intros w m Hm; exact Hm | apply pop_same_u].
   - eapply (frame_up_of_PR quietA s s [] s' outs); [exact Hs' | | apply pop_same_u].
-    destruct (bad_graph_rq _ _); [inversion H0; subst; apply PR_same; reflexivity|]. eapply handle_submit_graph_PR; [|exact H0]. intros w m Hm; exact Hm.
+    destruct (bad_submit_lengths _ _); [inversion H0; subst; apply PR_same; reflexivity|]. eapply handle_submit_array_PR; [|exact H0]; intros w m Hm; exact Hm.
+  - eapply (frame_up_of_PR quietA s s [] s' outs); [exact Hs' | | apply pop_same_u].
+    destruct (bad_graph_rq _ _); [inversion H0; subst; apply PR_same; reflexivity|]. destruct (dead_dep _ _ _); [inversion H0; subst; apply PR_same; reflexivity|]. eapply handle_submit_graph_PR; [|exact H0]. intros w m Hm; exact Hm.
   - eapply (frame_up_of_PR quietA s s [] s' outs); [exact Hs' | eapply handle_open_PR; exact H0 | apply pop_same_u].
   - eapply (frame_up_of_PR quietA s s [] s' outs); [exact Hs' | eapply handle_close_PR; exact H0 | apply pop_same_u].
   - eapply (frame_up_of_PR quietA s s [] s' outs); [exact Hs' | eapply handle_cancel_PR; [|exact H0]; intros w m Hm; exact Hm | apply pop_same_u].
